@@ -85,6 +85,9 @@ VARIANTS = {
              'start = index.start if index.start is not None else 0\n    stop = index.stop if index.stop is not None else len(self)\n    step = index.step if index.step is not None else 1\n    return (start, stop, step)',
              'C02.a', 'List._parse_slice'),
         fire('update-keys-parsed-as-paths', D, 'Dict.update', '{utils.KeyPath(k): v for k, v in updates.items()}', 'updates', 'C02.b', 'Dict.update'),
+        fire('values-in-raw-order', D, 'Dict.values', 'return self.sym_values()', 'return dict.values(self)', 'C02.f', 'Dict.values'),
+        fire('sym-keys-yields-twice', D, 'Dict.sym_keys', 'traversed.add(key_spec.text)', 'pass', 'C02.f', 'Dict.sym_keys'),
+        silent('sym-keys-rename-set', D, 'Dict.sym_keys', 'traversed', 'done', count=0),
         silent('slice-param-renamed', L, 'List._parse_slice', 'index', 'slc', count=0),
         silent('rename-lambda-var', L, 'List._sym_rebind', 'key=lambda x: x[0]', 'key=lambda kv: kv[0]'),
     ],
